@@ -176,6 +176,7 @@ func runC10(c *Ctx) {
 		c.obMustUnder("EHLO when not greeted", f, []string{"call:(*Client).ehlo"}, `Client.didHello == false`, `(*Client).greet(param0) == nil`)
 	}
 	ruleEhloReplacesExt(c)
+	ruleStickyHandshake(c)
 
 	R.Rule("R-ctls-no-downgrade", "E3 + who-may-call", "initStartTLS reaches startTLS only when STARTTLS is advertised and fails otherwise; the dial helpers close and return nil on failure; sendMail only uses a client from DialTLS/DialStartTLS obtained without error", 8)
 	if f := c.A.Func("initStartTLS"); f != nil {
@@ -270,5 +271,84 @@ func ruleEhloReplacesExt(c *Ctx) {
 	}
 	if f := c.A.Func("(*Client).helo"); f != nil {
 		R.Ob("(*Client).helo/clears ext", c.P.Pos(f.Pos()), s.Must(f)["st:Client.ext=nil"], "HELO fallback keeps stale extensions")
+	}
+}
+
+// ruleStickyHandshake (C10, C15): hello() and greet() run their exchange once (didHello / didGreet) and every later
+// call returns the remembered outcome. That only protects the caller if a failure that is RETURNED is also REMEMBERED:
+// after STARTTLS the renegotiated EHLO is such an exchange, and if its failure is reported once and then forgotten
+// (the flag stays set), the next method finds hello() == nil and goes on with the capabilities learned in plaintext.
+// Obligation: every value returned after the flag was set is the remembered field, a value stored into it on the way,
+// or nil.
+func ruleStickyHandshake(c *Ctx) {
+	R := c.R
+	R.Rule("R-chello-sticky", "E4 value flow + dominance", "after didHello/didGreet is set, hello()/greet() return only the remembered error (the field, or the value just stored into it) or nil: a failed exchange is not forgotten", 2)
+	for _, it := range [][3]string{{"(*Client).hello", "didHello", "helloError"}, {"(*Client).greet", "didGreet", "greetError"}} {
+		f := c.A.Func(it[0])
+		if f == nil {
+			continue
+		}
+		ff := c.F.Analyze(f)
+		var flagStores []ssa.Instruction
+		var errStores []*ssa.Store
+		allInstrs(f, func(in ssa.Instruction) {
+			fld, _, v := storedField(in)
+			if fld == nil {
+				return
+			}
+			if fld.Name() == it[1] {
+				if b, ok := constBool(v); ok && b {
+					flagStores = append(flagStores, in)
+				}
+			}
+			if fld.Name() == it[2] {
+				errStores = append(errStores, in.(*ssa.Store))
+			}
+		})
+		if len(flagStores) != 1 {
+			R.Und(it[0]+"/sets its once-flag", c.P.Pos(f.Pos()), fmt.Sprintf("%d stores of true to Client.%s found: the once-only shape is not recognised", len(flagStores), it[1]))
+			continue
+		}
+		var okVal func(v ssa.Value, at *ssa.BasicBlock, facts FactSet, depth int) (bool, string)
+		okVal = func(v ssa.Value, at *ssa.BasicBlock, facts FactSet, depth int) (bool, string) {
+			v = stripConv(v)
+			if isNilConst(v) {
+				return true, ""
+			}
+			if fld, _ := loadedField(v); fld != nil && fld.Name() == it[2] {
+				return true, ""
+			}
+			d := describe(v)
+			if facts[d+" == nil"] {
+				return true, ""
+			}
+			for _, st := range errStores {
+				if stripConv(st.Val) == v && (st.Block() == at || st.Block().Dominates(at)) {
+					return true, ""
+				}
+			}
+			if phi, ok := v.(*ssa.Phi); ok && depth < 4 {
+				for i, e := range phi.Edges {
+					p := phi.Block().Preds[i]
+					if good, why := okVal(e, p, ff.edgeOut(p, phi.Block()), depth+1); !good {
+						return false, why
+					}
+				}
+				return true, ""
+			}
+			return false, d
+		}
+		n := 0
+		allInstrs(f, func(in ssa.Instruction) {
+			r, ok := in.(*ssa.Return)
+			if !ok || in.Block() == f.Recover || !reachesInstr(flagStores[0], in) {
+				return
+			}
+			n++
+			good, why := okVal(returnedValues(r)[0], in.Block(), ff.At(in), 0)
+			R.Ob(c.siteKey(in, "returns the remembered outcome"), c.P.InstrPos(in), good,
+				fmt.Sprintf("%s returns %s after setting Client.%s without storing it in Client.%s: the failure is reported once and forgotten, every later call returns nil and the client carries on with what it knew before (after STARTTLS: the plaintext capabilities)", it[0], why, it[1], it[2]))
+		})
+		R.Ob(it[0]+"/has a return after the exchange", c.P.Pos(f.Pos()), n >= 1, "no return found after the once-flag is set")
 	}
 }
